@@ -28,7 +28,7 @@ typedef Cfg<CAPS_FULL, false, false> C_full; typedef Cfg<CAPS_FULL, false, false
 template <class GC, class S, class N, class CFG> struct MSet : IntrA<GC, S, N, CFG> { explicit MSet(const Program& p) { this->s.reset(new S((size_t)p.knob("max_items", 4), (size_t)p.knob("load_factor", 1))); } };
 template <class GC, class S, class N, class CFG> struct SSet : IntrA<GC, S, N, CFG> {
     explicit SSet(const Program& p) { this->s.reset(new S((size_t)p.knob("item_count", 2), (size_t)p.knob("load_factor", 1))); }
-    void probes(Ctx& c) { IntrA<GC, S, N, CFG>::probes(c); auto const& st = this->s->statistics(); c.probe("split_bucket_inits", (long)st.m_nInitBucketRecursive.get() + (long)st.m_nInitBucketContention.get()); c.probe("split_buckets_created", (long)st.m_nBucketCount.get()); }
+    bool consistent(std::string& why) { std::vector<long> ks; this->traverse(ks); return split_order_ok(ks, why); } void probes(Ctx& c) { IntrA<GC, S, N, CFG>::probes(c); auto const& st = this->s->statistics(); c.probe("split_bucket_inits", (long)st.m_nInitBucketRecursive.get() + (long)st.m_nInitBucketContention.get()); c.probe("split_buckets_created", (long)st.m_nBucketCount.get()); }
 };
 void gen_m(Rng& r, Program& p, int tier, const std::string&) { GenCfg g; g.min_hazards = 8; g.hash_modes = 4; g.nkeys_hot = 4; g.insert_forms = 2; g.erase_forms = 3; gen_program(r, p, tier, g); p.set("max_items", r.pick({1, 2, 4, 8})); p.set("load_factor", r.pick({1, 1, 2})); }
 void gen_s(Rng& r, Program& p, int tier, const std::string&) { GenCfg g; g.min_hazards = 12; g.hash_modes = 4; g.nkeys_hot = 5; g.nkeys_cold = 3; g.max_ops = 6; g.insert_forms = 2; g.erase_forms = 3; gen_program(r, p, tier, g); p.set("item_count", r.pick({2, 2, 4})); p.set("load_factor", 1); }
